@@ -29,7 +29,14 @@
 (*   - the index result of Tree.Get; Remove/Del ("not supported");         *)
 (*   - Set(EmptyRoot, <<>>) (nil versus 32 zero bytes: two spellings of    *)
 (*     the empty state);                                                   *)
-(*   - error codes: only ok / notfound classes of Commit and Rollback.     *)
+(*   - error codes: only ok / notfound classes of Commit and Rollback;     *)
+(*   - histories in which a PENDING root has the same content as another   *)
+(*     known root: the implementation names roots by hash, and two         *)
+(*     different terms with equal content may (legitimately) hash alike,   *)
+(*     which would make "is this root pending" ambiguous.  The guard       *)
+(*     Distinct keeps generated histories out of that corner; equal        *)
+(*     contents among committed roots (no-op overwrites, commuting         *)
+(*     inserts) stay in.                                                   *)
 (***************************************************************************)
 EXTENDS Integers, Sequences, FiniteSets, Json, TLC
 
@@ -38,7 +45,8 @@ CONSTANTS NKeys,      \* model keys are 1..NKeys (the harness maps them order-pr
           Heights,    \* model block heights
           MaxRoots,   \* bound on the number of distinct roots created
           MaxOps,     \* bound on the number of state-changing operations
-          Batches,    \* the write lists a step may use (set of sequences of <<key, value>>)
+          Batches(_), \* the write lists a step may use (set of sequences of <<key, value>>); the argument
+                      \* is nops (generation configs draw a fresh random subset of a pool at every step)
           Ops,        \* enabled operation names (subset of AllOps)
           EmitOn,     \* TRUE: act is the JSON label of the step; FALSE: just the operation name
           ChkIter     \* TRUE: the projection also carries the complete iteration table
@@ -47,7 +55,7 @@ VARIABLES content, committed, pending, heightOf, chainAt, tipH, order, nops, act
 vars == <<content, committed, pending, heightOf, chainAt, tipH, order, nops, act>>
 view == <<content, committed, pending, heightOf, chainAt, tipH, nops>>
 
-AllOps == {"Set", "MemSet", "Commit", "Rollback", "CommitNP", "RollbackNP", "Reopen", "Get", "Iter"}
+AllOps == {"Set", "MemSet", "Commit", "Rollback", "CommitNP", "RollbackNP", "Reopen", "Redo", "Get", "Iter"}
 
 Keys == 1..NKeys
 Vals == 1..NVals
@@ -61,7 +69,8 @@ Apply(m, ws) == IF ws = <<>> THEN m                     \* left fold, later writ
 
 EmptyMap == [k \in Keys |-> None]
 Known == DOMAIN content
-Id(r) == IF r = EmptyRoot THEN 0 ELSE CHOOSE i \in 1..Len(order) : order[i] = r
+IdIn(ord, r) == IF r = EmptyRoot THEN 0 ELSE CHOOSE i \in 1..Len(ord) : ord[i] = r
+Id(r) == IdIn(order, r)
 MaxI(a, b) == IF a > b THEN a ELSE b
 
 \* ---- iteration: keys of content[r] inside the bounds, in the requested order -----------
@@ -95,7 +104,7 @@ Chk == [i \in 1..Len(SortedIds) |->
           THEN [id |-> SortedIds[i], row |-> Row(RootOfId(SortedIds[i])), it |-> IterTable(RootOfId(SortedIds[i]))]
           ELSE [id |-> SortedIds[i], row |-> Row(RootOfId(SortedIds[i]))]]
 \* ids of the known roots whose content equals that of r (two terms may share a hash only then)
-SameAs(r) == {Id(x) : x \in {y \in Known : content[y] = content[r]}}
+SameAsIn(cont, ord, r) == {IdIn(ord, x) : x \in {y \in DOMAIN cont : cont[y] = cont[r]}}
 
 Emit(rec) == act' = IF EmitOn THEN ToJson(rec) ELSE rec.op
 
@@ -109,6 +118,11 @@ Init == /\ content = (EmptyRoot :> EmptyMap)
         /\ nops = 0
         /\ act = IF EmitOn THEN ToJson([op |-> "Init"]) ELSE "Init"
 
+\* the content root r has / will have
+NewContent(r, p, ws) == IF r \in Known THEN content[r] ELSE Apply(content[p], ws)
+\* no root of S other than r has the content of r
+Distinct(r, p, ws, S) == \A y \in S \ {r} : content[y] # NewContent(r, p, ws)
+
 \* a (possibly new) root r enters the domain of content
 Create(r, p, ws, h) ==
   /\ r \in Known \/ Len(order) < MaxRoots
@@ -121,25 +135,27 @@ Set(p, ws, h) ==
   /\ "Set" \in Ops /\ nops < MaxOps
   /\ p \in committed /\ ~(p = EmptyRoot /\ ws = <<>>)
   /\ LET r == Root(p, ws) IN
+     /\ Distinct(r, p, ws, pending)
      /\ Create(r, p, ws, h)
      /\ committed' = committed \cup {r}
      /\ chainAt' = [chainAt EXCEPT ![h] = r] /\ tipH' = MaxI(tipH, h)
      /\ UNCHANGED pending
      /\ nops' = nops + 1
      /\ Emit([op |-> "Set", parent |-> Id(p), writes |-> ws, height |-> h,
-              ret |-> Id(r)', eq |-> SameAs(r)', chk |-> Chk'])
+              ret |-> IdIn(order', r), eq |-> SameAsIn(content', order', r), chk |-> Chk'])
 
 \* pending update (EventStoreMemSet): nothing committed changes
 MemSet(p, ws, h) ==
   /\ "MemSet" \in Ops /\ nops < MaxOps
   /\ p \in committed
   /\ LET r == Root(p, ws) IN
+     /\ Distinct(r, p, ws, Known)
      /\ Create(r, p, ws, h)
      /\ pending' = pending \cup {r}
      /\ UNCHANGED <<committed, chainAt, tipH>>
      /\ nops' = nops + 1
      /\ Emit([op |-> "MemSet", parent |-> Id(p), writes |-> ws, height |-> h,
-              ret |-> Id(r)', eq |-> SameAs(r)', chk |-> Chk'])
+              ret |-> IdIn(order', r), eq |-> SameAsIn(content', order', r), chk |-> Chk'])
 
 Commit(r) ==
   /\ "Commit" \in Ops /\ nops < MaxOps
@@ -196,7 +212,13 @@ Iter(r, lo, hi, asc, incl, lim) ==
   /\ Emit([op |-> "Iter", root |-> Id(r), lo |-> lo, hi |-> hi, asc |-> asc, incl |-> incl, lim |-> lim,
            ret |-> IterResult(r, lo, hi, asc, incl, lim)])
 
-Mut == \/ \E p \in committed, ws \in Batches, h \in Heights : Set(p, ws, h) \/ MemSet(p, ws, h)
+\* "Redo": compute an update again that was computed before (same parent, same writes, any
+\* height, directly or pending) -- the same steps as Set / MemSet, listed separately so that
+\* generation meets them often (C02: the root must come out the same every time)
+Mut == \/ \E p \in committed, ws \in Batches(nops), h \in Heights : Set(p, ws, h) \/ MemSet(p, ws, h)
+       \/ /\ "Redo" \in Ops
+          /\ \E r \in Known \ {EmptyRoot}, h \in Heights :
+                r[1] \in committed /\ (Set(r[1], r[2], h) \/ MemSet(r[1], r[2], h))
        \/ \E r \in pending : Commit(r) \/ Rollback(r)
        \/ \E r \in Known : CommitNP(r) \/ RollbackNP(r)
        \/ Reopen
@@ -210,8 +232,11 @@ Spec == Init /\ [][Next]_vars
 -----------------------------------------------------------------------------
 \* The properties, stated on the model (TLC checks them on every state / step).
 
+\* the guard Distinct maintains: a pending root shares its content with no other known root
+Unambiguous == \A x \in pending : \A y \in Known \ {x} : content[x] # content[y]
+
 TypeOK == /\ committed \subseteq Known /\ pending \subseteq Known /\ EmptyRoot \in committed
-          /\ \A r \in Known : content[r] \in [Keys -> Vals \cup {None}]
+          /\ \A r \in Known : DOMAIN content[r] = Keys /\ \A k \in Keys : content[r][k] \in 0..NVals
           /\ Len(order) <= MaxRoots /\ Known = {EmptyRoot} \cup {order[i] : i \in 1..Len(order)}
           /\ DOMAIN heightOf = Known /\ tipH \in Heights \cup {0}
           /\ \A h \in Heights : chainAt[h] \in committed
